@@ -574,7 +574,7 @@ def gen_directed(shard, nshards, tier, seed):
 def units(tier):
     return [
         Unit('directed', 'enum', shards=16, gen=gen_directed),
-        Unit('histories', 'hyp', shards=16, examples={'quick': 250, 'thorough': 14000},
+        Unit('histories', 'hyp', shards=16, examples={'quick': 250, 'thorough': 7000},
              strategy=strat_history),
         Unit('histories-known-region', 'hyp', shards=2, examples={'quick': 80, 'thorough': 3000},
              strategy=lambda: strat_history(True)),
